@@ -167,8 +167,22 @@ func execSeq(t *testing.T, plan *Plan, h seqHooks) *Outcome {
 						// the call itself was fine but persisting failed: nothing may be visible (C02/C05);
 						// the model does not apply it
 						if catalogDump(before, true) != catalogDump(after, true) {
-							e.violate(violation("C02", "visible-after-failed-store", op.K, fmt.Sprintf("%s failed in the store but changed the visible state", opStr(op))))
-							return
+							v := violation("C02", "visible-after-failed-store", op.K, fmt.Sprintf("%s failed in the store but changed the visible state", opStr(op)))
+							// the same damage in the vocabulary of the property under test
+							bl, al := oplogOf(before), oplogOf(after)
+							switch {
+							case h.prop == "C08" && (len(al) != len(bl) || (len(al) > 0 && !model.Same(al[len(al)-1], bl[len(bl)-1]))):
+								v = violation("C08", "event-for-failed-call", op.K, fmt.Sprintf("%s failed in the store but the change log differs afterwards (%d events before, %d after)", opStr(op), len(bl), len(al)))
+							case h.prop == "C05":
+								v = violation("C05", "visible-after-failed-persist", op.K, v.Detail)
+							}
+							e.violate(v)
+							if v.Prop == h.prop {
+								return
+							}
+							// another property's check decides this: continue from what the database now holds
+							e.syncModel(st, -1)
+							*st = *modelFromCatalog(after)
 						}
 						e.probe("store-fault-call")
 						continue
